@@ -185,6 +185,7 @@ def task_fixrot(arg):
     mass_sets = [[1.0] * 4, [1.0, 12.0, 63.5, 12.0], [63.5] * 4, [12.0, 1.0, 1.0, 63.5]]
     pats = [np.array(p, dtype=float) for p in ([1, 0, 0, 0, 1, 0, 0, 0, 1, 1, 1, 1], [1, -1, 0, 0, 1, -1, -1, 0, 1, 0, 0, 1], [0, 0, 1, 0, 0, -1, 1, 1, 0, -1, 0, 0], [1, 1, 1, -1, -1, -1, 1, 0, -1, 0, 1, 0], [-1, 0, 1, 1, 0, -1, 0, 1, 0, 1, -1, 1], [0, 1, 0, 0, 0, 0, 0, 0, 0, 0, 0, 0])]
     combos = list(itertools.combinations(range(len(sites)), n))[arg.get("part", 0) :: arg.get("parts", 1)]
+    shared = FixRot()  # the same constraint object is applied again after the atoms moved
     for combo in combos:
         pos = np.array([sites[i] for i in combo])
         # skip collinear placements (the statement excludes them)
@@ -197,7 +198,7 @@ def task_fixrot(arg):
             for pat in pats:
                 p0 = pat[: 3 * n].reshape(n, 3) * np.sqrt(np.array(masses[:n]))[:, None]
                 p = p0.copy()
-                FixRot().adjust_momenta(atoms, p)
+                (shared if arg.get("reuse") else FixRot()).adjust_momenta(atoms, p)
                 counters["trials"] += 1
                 r = pos - atoms.get_center_of_mass()
                 L0 = np.cross(r, p0).sum(0)
@@ -207,7 +208,7 @@ def task_fixrot(arg):
                     counters["nontrivial"] += 1
                 where = f"positions {js(pos)} masses {masses[:n]} momenta {js(p0)}"
                 if not np.all(np.isfinite(p)) or np.abs(L).max() > 1e-9 * scale:
-                    sig = f"C12/FixRot/n{n}/angular-momentum-not-removed"
+                    sig = f"C12/FixRot/n{n}/angular-momentum-not-removed" + ("/constraint-object-reused" if arg.get("reuse") else "")
                     seen[sig] = seen.get(sig, 0) + 1
                     if seen[sig] <= 2:
                         viol.append({"signature": sig, "what": f"L after adjust_momenta = {js(L)} (before {js(L0)}); {where}", "replay": {}})
@@ -229,6 +230,7 @@ def run(tier, seed):
     for r in pmap(__name__, "task_forcebias", fb):
         acc.add(r)
     fr = [{"n": 3, "part": i, "parts": 8} for i in range(8)] + [{"n": 4, "part": i, "parts": 32 if tier == "quick" else 8} for i in range(8)]
+    fr += [{"n": 3, "part": i, "parts": 8, "reuse": True} for i in range(0, 8, 2)]
     for r in pmap(__name__, "task_fixrot", fr):
         acc.add(r)
     rep.violations = acc.violations
